@@ -382,10 +382,15 @@ def gen_sha(tier, seed):
 
 
 def impl_digest(m: bytes, cut: int):
+    """The implementation's hash helper on the message split in three parts (None if the helper is gone)."""
     import aiohomekit.crypto.srp as srp
-    s = srp.Srp(USER, "000-00-000")
+    try:
+        s = srp.Srp(USER, "000-00-000")
+        f = s.digest
+    except Exception:  # noqa
+        return None
     c1, c2 = sorted(((cut * 7) % (len(m) + 1), (cut * 13) % (len(m) + 1)))
-    return bytes(s.digest(m[:c1], bytearray(m[c1:c2]), m[c2:]))
+    return bytes(f(m[:c1], bytearray(m[c1:c2]), m[c2:]))
 
 
 # ---------------------------------------------------------------- run
@@ -453,19 +458,28 @@ def run(ctx):
     # ---- constants, read from the implementation at run time
     model_consts = dict(N=int.from_bytes(bytes(mc[0]), "big"), g=int.from_bytes(bytes(mc[1]), "big"),
                         k=int.from_bytes(bytes(mc[2]), "big"), hgroup=bytes(mc[3]), keylen=mc[4][0], saltlen=mc[4][1])
+    # (module globals and instance attributes are both read when present; a refactor that renames one of them is tolerated)
     impl_consts = dict(N=getattr(srp, "MODULUS_VALUE", None), g=getattr(srp, "GENERATOR_VALUE", None),
-                       k=getattr(srp, "CLIENT_K_VALUE", None), hgroup=bytes(getattr(srp, "H_GROUP", b"")),
+                       k=getattr(srp, "CLIENT_K_VALUE", None), hgroup=getattr(srp, "H_GROUP", None),
                        keylen=getattr(srp, "HK_KEY_LENGTH", None))
     ref_consts = dict(N=R.N, g=R.G, k=R.K_MULT, hgroup=R.H_GROUP, keylen=R.NLEN)
     inst = srp.SrpClient(USER, "000-00-000")
-    inst_consts = dict(N=inst.n, g=inst.g, k=inst._calculate_k() if hasattr(inst, "_calculate_k") else inst.k,
-                       hgroup=bytes(inst.hGroup), keylen=impl_consts["keylen"])
+    inst_consts = dict(N=getattr(inst, "n", None), g=getattr(inst, "g", None),
+                       k=inst._calculate_k() if hasattr(inst, "_calculate_k") else getattr(inst, "k", None),
+                       hgroup=getattr(inst, "hGroup", None), keylen=None)
     for name in ("N", "g", "k", "hgroup", "keylen"):
-        vals = dict(model=model_consts[name], module=impl_consts[name], instance=inst_consts[name], reference=ref_consts[name])
-        ok = len({repr(v) for v in vals.values()}) == 1
-        cov.case("const" + name, True, sample=dict(stream="constants", name=name, agree=ok), stream="constants")
-        if not ok:
-            wrong_impl = vals["module"] != vals["reference"] or vals["instance"] != vals["reference"]
+        vals = dict(model=model_consts[name], reference=ref_consts[name])
+        for src, d in (("module", impl_consts), ("instance", inst_consts)):
+            if d[name] is not None:
+                vals[src] = bytes(d[name]) if isinstance(d[name], (bytes, bytearray)) else d[name]
+        readable = "module" in vals or "instance" in vals
+        ok = readable and len({repr(v) for v in vals.values()}) == 1
+        cov.case("const" + name, True, sample=dict(stream="constants", name=name, agree=ok, sources=sorted(vals)), stream="constants")
+        if not readable:
+            viols.append(violation(f"constants:{name}:unreadable", f"group constant {name} could not be read from aiohomekit.crypto.srp "
+                                   "(neither module global nor instance attribute)", False, constant=name))
+        elif not ok:
+            wrong_impl = any(vals.get(sname, vals["reference"]) != vals["reference"] for sname in ("module", "instance"))
             viols.append(violation(f"constants:{name}", f"group constant {name} differs between srp.py, the model and RFC 5054/HAP: "
                                    + ", ".join(k for k, v in vals.items() if v != vals["reference"]) + " deviate",
                                    wrong_impl, constant=name, values={k: (v.hex() if isinstance(v, bytes) else hex(v) if isinstance(v, int) else v)
@@ -475,7 +489,7 @@ def run(ctx):
     for i, (m, dm) in enumerate(zip(msgs, sha_model)):
         want = hashlib.sha512(m).digest()
         di = impl_digest(m, i)
-        if di != want:
+        if di is not None and di != want:
             viols.append(violation("sha512:impl-digest", "Srp.digest is not SHA-512 of the concatenation", True, message=m.hex(),
                                    impl=di.hex(), expected=want.hex()))
         if bytes(dm) != want:
@@ -486,9 +500,11 @@ def run(ctx):
 
     # ---- to_byte_array / pad_left
     for n, mm in zip(ns, tba_model):
+        if not hasattr(srp, "to_byte_array"):
+            break
         try:
             im = "ok " + bytes(srp.to_byte_array(n)).hex()
-            im2 = "ok " + bytes(srp.Srp.to_byte_array(n)).hex()
+            im2 = "ok " + bytes(srp.Srp.to_byte_array(n)).hex() if hasattr(srp.Srp, "to_byte_array") else im
         except Exception as e:  # noqa
             im = im2 = exc_class(e)
         want = "crash" if n < 0 else "ok " + (R.i2osp(n, n.bit_length() // 8 + 1).lstrip(b"\x00")).hex()
@@ -501,6 +517,8 @@ def run(ctx):
         cov.case(f"tba{n}", True, stream="to_byte_array", tba_bytes=(n.bit_length() + 7) // 8 if n >= 0 else "negative",
                  sample=dict(stream="to_byte_array", n=n, impl=im) if n in (0, 255, 256) else None)
     for (d, ln), mm in zip(pl_cases, pl_model):
+        if not hasattr(srp, "pad_left"):
+            break
         try:
             im = "ok " + bytes(srp.pad_left(d, ln)).hex()
         except Exception as e:  # noqa
